@@ -68,10 +68,14 @@ pub fn export_strategy() -> BoxedStrategy<Export> {
             let cur = if usd { "USD" } else { "CAD" };
             let mk = |cells: Vec<(&str, String)>| -> Activity { let mut m: BTreeMap<String, String> = BTreeMap::new(); for h in HEADERS { m.insert(h.to_string(), String::new()); } for (k, v) in cells { m.insert(k.to_string(), v); } Activity { cells: m } };
             let base = |action: &str, symbol: &str| vec![("Transaction Date", td.clone()), ("Settlement Date", sd.clone()), ("Action", action.to_string()), ("Symbol", symbol.to_string()), ("Description", format!("{symbol} desc, with comma")), ("Currency", cur.to_string()), ("Account #", anum.to_string()), ("Account Type", atype.to_string()), ("Activity Type", "Trades".to_string())];
-            let (q, p, c) = (d2(qty, [0, 0, 2, 4][x as usize % 4]), d2(px, [2, 2, 4, 3][(x >> 2) as usize % 4]), d2(comm, 2));
+            let (q, mut p, mut c) = (d2(qty, [0, 0, 2, 4][x as usize % 4]), d2(px, [2, 2, 4, 3][(x >> 2) as usize % 4]), d2(comm, 2));
+            // worthless close-outs / free distributions: price 0, possibly with a fee
+            if (x >> 4) % 8 == 0 && kind != "DIS" { p = "0".to_string(); }
             let gross = Decimal::from_str(&q).unwrap() * Decimal::from_str(&p).unwrap();
+            // a fee that eats the whole proceeds: net cash exactly zero
+            if (x >> 7) % 16 == 0 && (kind == "SELL" || kind == "LIQ") && !gross.is_zero() { c = gross.normalize().to_string(); }
             match kind {
-                "BUY" | "DIS" => { let mut v = base(kind, symbols[sym]); let price = if kind == "DIS" { "0".to_string() } else { p.clone() }; let comm = if kind == "DIS" { "0".to_string() } else { format!("-{c}") }; v.extend(vec![("Quantity", q.clone()), ("Price", price), ("Gross Amount", format!("-{}", gross.normalize())), ("Commission", comm), ("Net Amount", format!("-{}", gross.normalize()))]); rows.push(mk(v)); }
+                "BUY" | "DIS" => { let mut v = base(kind, symbols[sym]); let price = if kind == "DIS" { "0".to_string() } else { p.clone() }; let comm = if kind == "DIS" && (x >> 4) % 3 != 0 { "0".to_string() } else { format!("-{c}") }; v.extend(vec![("Quantity", q.clone()), ("Price", price), ("Gross Amount", format!("-{}", gross.normalize())), ("Commission", comm), ("Net Amount", format!("-{}", gross.normalize()))]); rows.push(mk(v)); }
                 "SELL" | "LIQ" => { let mut v = base(kind, symbols[sym]); v.extend(vec![("Quantity", format!("-{q}")), ("Price", p.clone()), ("Gross Amount", gross.normalize().to_string()), ("Commission", format!("-{c}")), ("Net Amount", gross.normalize().to_string())]); rows.push(mk(v)); }
                 "DIV" => { let mut v = base("DIV", symbols[sym]); v.extend(vec![("Quantity", "0".to_string()), ("Price", "0".to_string()), ("Gross Amount", "0".to_string()), ("Commission", "0".to_string()), ("Net Amount", d2(px, 2))]); v.retain(|k| k.0 != "Activity Type"); v.push(("Activity Type", "Dividends".to_string())); rows.push(mk(v)); }
                 "FXT" => {
@@ -211,6 +215,7 @@ fn check(e: &Export, obs: &mut Obs) -> Verdict {
     let has_fxt = want.iter().any(|w| w.rate.is_some());
     if has_usd_trade && has_fxt { obs.nt("usd-trade-and-fxt-pair"); }
     if blank { obs.nt("blank-header-cell"); }
+    if e.rows.iter().any(|a| a.cells["Currency"] == "USD" && ["BUY", "SELL", "DIS", "LIQ"].contains(&a.cells["Action"].as_str()) && num(a, "Price", &e.numeric_cols).is_zero() && !num(a, "Commission", &e.numeric_cols).is_zero()) { obs.class("usd-zero-price-with-fee"); }
     if e.layout != Export::canonical_layout() { obs.class("non-canonical-layout"); }
     if !e.numeric_cols.is_empty() { obs.class("numeric-cells"); }
     if want.iter().any(|w| w.registered) { obs.class("registered-account"); }
